@@ -299,6 +299,33 @@ func TestVerifC14(t *testing.T) {
 		}
 		out.Stat("unmarshal_cases", 2)
 	}
+	vMarkerIsFixed(out)
+}
+
+// vMarkerIsFixed: the byte slices handed out by MarshalText / MarshalBinary must be the caller's own —
+// scribbling over one result must not change any later rendering ("the FIXED redaction marker").
+// Run last: if the implementation shares one buffer, everything rendered afterwards is garbage.
+func vMarkerIsFixed(out *vOut) {
+	s := String("hunter2-s3cr3t-A")
+	for _, m := range []struct {
+		name, coq string
+		f         func() ([]byte, error)
+	}{{"MarshalText", "PMarshalText", s.MarshalText}, {"MarshalBinary", "PMarshalBinary", s.MarshalBinary}} {
+		b, _ := m.f()
+		for i := range b {
+			b[i] = 'X'
+		}
+		b = append(b[:0], "overwritten-by-the-caller"...)
+		_ = b
+		again, _ := m.f()
+		js, _ := json.Marshal(s)
+		term := vCaseRender(vBare, string(s), []vRendering{{m.coq, string(again), false}, {"PJson", string(js), false}, {"PSprint", fmt.Sprint(s), false}})
+		out.Case(true, term)
+		out.Stat("marker_fixed_after_caller_mutation", 1)
+		if string(again) != s.String() || !strings.Contains(string(js), s.String()) {
+			out.Oracle("marker-not-fixed", term, fmt.Sprintf("after the caller overwrote the slice returned by %s, %s returns %q and json.Marshal %q; cause=unexplained", m.name, m.name, again, js))
+		}
+	}
 }
 
 func vValidUTF8(s string) bool {
